@@ -236,6 +236,7 @@ pub const SIG_UNIFY_CYCLE: &str = "unsound=unify-cycle-arm-unchecked";
 pub const SIG_UNIFY_MERGE: &str = "unify=union-union-widened-binding-dropped"; // fixed e4496af
 pub const SIG_TABLE_TAIL: &str = "dispatch=tail-call-branch-never-in-table"; // fixed 7ed48d7
 pub const SIG_FIELD_COMPL: &str = "narrow=field-complement-on-union-scrutinee"; // fixed 1d5e1cb
+pub const SIG_FIELD_COMPL_TYPED: &str = "narrow=field-complement-then-typed-bind-claims-exhaustive";
 pub const SIG_PARTIAL_PAT: &str = "pattern=partial-on-union-with-non-tuple-variant"; // fixed fbadbb2
 pub const SIG_REC_BACKREF: &str = "unsound=recursive-type-backreference-misresolved";
 pub const SIG_REPEATED: &str = "unsound=repeated-binder-in-tuple-field-complement";
@@ -300,7 +301,11 @@ pub fn classify(p: &Prog, arg: &Arg, j: &Judged, cx: &mut Cx) -> Option<&'static
         let plain = p.render(&arg.src, &Repair::default());
         let src = p.render(&arg.src, &Repair { alt_subpat: true, ..Default::default() });
         if src != plain && !still_fails(&src, cx) {
-            return Some(SIG_FIELD_COMPL);
+            // N15 (open): on a single-tuple scrutinee, a branch that records a field-specific
+            // complement followed by a branch with a type-ascribed binder in a field makes the
+            // block count as exhaustive; 1d5e1cb repaired only the union-scrutinee case
+            let typed_bind_in_tuple = plain.contains("#[(") && (plain.contains(")v") || plain.contains(")u"));
+            return Some(if typed_bind_in_tuple { SIG_FIELD_COMPL_TYPED } else { SIG_FIELD_COMPL });
         }
     }
     // K9: the failure disappears when partial patterns over a known tuple variant are written as
@@ -466,6 +471,7 @@ fn report_failure(ev: &mut Ev, p: &Prog, arg: &Arg, j: &Judged, cx: &mut Cx, ori
                 SIG_REC_BACKREF => "a type taken out of a recursive alias (binder at a recursive position, field access or embedding of a complement-narrowed recursive value, case-table guard) keeps a `Cycle` back-reference that is later resolved against the wrong enclosing boundary (the failure disappears when the alias is replaced by a finite unfolding)",
                 SIG_SINGLE_BINDER => "a destructuring pattern with exactly one binder gives that binder the provenance of the whole matched value (compile_match: `bindings.len() == 1`), so the narrowing of the value re-types the binder (observed on recursive aliases: `=Cons[_, t] => t` types `t` as the Cons cell) (the failure disappears when the wildcards are unused binders)",
                 SIG_REPEATED => "a repeated identifier in a tuple pattern (`=[K[a], a]`) is an equality requirement, but the pattern still takes part in the per-field complement narrowing of later branches (the failure disappears when the repetition is written as a fresh binder plus a pin step)",
+                SIG_FIELD_COMPL_TYPED => "tuple-typed parameter: after a branch that records a field-specific complement (`=[D] => …`), a branch whose field pattern is a type-ascribed binder (`=[('int)v] => …`) makes the block count as exhaustive although other variants of the field remain (the failure disappears when the nested sub-pattern of the first branch is written `(P | P)`)",
                 SIG_UNIFY_MERGE => "unify's union/union arm skips a widened binding that is not assignable to the existing one, losing the widening (the guards model types the call correctly under the take-widened rule)",
                 _ => "known finding",
             };
